@@ -55,6 +55,21 @@ def extract(o, path="", out=None):
             extract(oc, "%s.occupancy_set[%d]" % (path, i), out)
     elif n == "TrajectoryPrediction":
         extract(o.trajectory, path + ".trajectory", out)
+        # derived: the occupancy of every exact state next to the shape placed independently at that state ('derived'
+        # entries are judged on their own: got occupancy == placement at the state the object has NOW; reading them
+        # also fills the library's occupancy cache)
+        from vf.oracle import placement
+        for i, s in enumerate(o.trajectory.state_list):
+            if not isinstance(getattr(s, "position", None), np.ndarray):
+                continue
+            if type(s).__name__ != "PMState" and not isinstance(getattr(s, "orientation", None), (int, float)):
+                continue
+            try:
+                oc = o.occupancy_at_time_step(s.time_step)
+                val = (geom.describe(oc.shape), placement.expected_occupancy_desc(o.shape, s))
+            except Exception:  # noqa  (totality of occupancy queries is C04's business)
+                continue
+            out.append(("%s.trajectory.state_list[%d]~occupancy" % (path, i), "derived", val))
     elif n in ("StaticObstacle", "DynamicObstacle"):
         extract(o.initial_state, path + ".initial_state", out)
         if n == "DynamicObstacle":
@@ -138,6 +153,9 @@ def compare(expected, got, scale_extra=0.0, tol=1e-9):
         elif kind == "ring":
             if not geom.rings_equal(e, g, tol * (1 + scale_extra)):
                 bad.append((path, kind, e[:3], g[:3]))
+        elif kind == "derived":
+            if not geom.desc_equal(g[0], g[1], 1e-7):
+                bad.append((path, kind, g[1], g[0]))
         elif kind == "angle":
             if not angle_close(e, g, tol * 10):
                 bad.append((path, kind, e, g))
